@@ -14,6 +14,7 @@ import (
 	"fmt"
 	"go/token"
 	"go/types"
+	"io"
 	"sort"
 	"strings"
 )
@@ -884,5 +885,46 @@ func init() {
 			return tuple{n, fr.i.nativeError(fr, err)}
 		}
 		return tuple{n, iface{}}
+	}
+}
+
+func init() {
+	// (*json.Decoder).Token after the values decoded so far: io.EOF when only white space is
+	// left, otherwise whatever the real decoder says about the rest (a token or a syntax error).
+	// The token itself is handed back as its printed form (the repository only looks at the error).
+	externals["(*encoding/json.Decoder).Token"] = func(fr *frame, a []value) value {
+		i := fr.i
+		d := (*(a[0].(*value))).(*nativeJSONDecoder)
+		if !d.drained {
+			d.drained = true
+			readAll := i.prog.ImportedPackage("io").Func("ReadAll")
+			r := call(i, fr, token.NoPos, readAll, []value{d.r}).(tuple)
+			if e := r[1].(iface); e.t != nil {
+				return tuple{iface{}, e}
+			}
+			b, ok := bytesOf(r[0])
+			if !ok {
+				panic(unsupported{"json.Decoder over symbolic bytes (byte-level parsing is outside the JSON contract model)"})
+			}
+			d.rest = b
+		}
+		dec := json.NewDecoder(bytes.NewReader(d.rest))
+		tok, err := dec.Token()
+		if err != nil {
+			if err == io.EOF {
+				return tuple{iface{}, i.foreignGlobalValue("io", "EOF")}
+			}
+			return tuple{iface{}, i.nativeError(fr, err)}
+		}
+		d.rest = d.rest[dec.InputOffset():]
+		return tuple{iface{t: types.Typ[types.String], v: fmt.Sprint(tok)}, iface{}}
+	}
+	externals["(*encoding/json.Decoder).More"] = func(fr *frame, a []value) value {
+		d := (*(a[0].(*value))).(*nativeJSONDecoder)
+		if !d.drained {
+			panic(unsupported{"json.Decoder.More before the first Decode"})
+		}
+		rest := bytes.TrimLeft(d.rest, " \t\r\n")
+		return len(rest) > 0 && rest[0] != ']' && rest[0] != '}'
 	}
 }
